@@ -3975,8 +3975,13 @@ pub fn initialize(env: &mut Env) {
                     let u = n
                         .to_usize()
                         .ok_or(NErr::value_error("bad combo".to_string()))?;
-                    let iv = Rc::new((0..u).collect());
-                    Ok(Obj::Seq(Seq::Stream(Rc::new(Combinations(v, Some(iv))))))
+                    // more items than there are: no combinations (and no index vector of that size)
+                    let iv = if u > v.len() {
+                        None
+                    } else {
+                        Some(Rc::new((0..u).collect()))
+                    };
+                    Ok(Obj::Seq(Seq::Stream(Rc::new(Combinations(v, iv)))))
                 }
                 b => Err(NErr::argument_error_second(&b)),
             }
